@@ -429,8 +429,23 @@ class SStr(Sym):
             return Or(*[self.endswith(p) for p in suf])
         return mk_bool(z3.SuffixOf(_s(suf), self.t))
 
+    def _hook(self, name: str, *args: Any) -> Any:
+        """Contract-installed alternative encoding of a str method (Explorer.str_hooks[name]); NotImplemented = use the default."""
+        hooks = getattr(cur().ex, 'str_hooks', None) if _CUR else None
+        h = hooks.get(name) if hooks else None
+        return NotImplemented if h is None else h(cur(), self, *args)
+
     def find(self, sub: Any, start: Any = 0) -> Any:
+        r = self._hook('find', sub, start)
+        if r is not NotImplemented:
+            return r
         return mk_int(z3.IndexOf(self.t, _s(sub), _i(start)))
+
+    def rfind(self, sub: Any) -> Any:
+        r = self._hook('rfind', sub)
+        if r is not NotImplemented:
+            return r
+        return mk_int(z3.LastIndexOf(self.t, _s(sub)))
 
     def index(self, sub: Any, start: Any = 0) -> Any:
         r = self.find(sub, start)
@@ -440,6 +455,9 @@ class SStr(Sym):
         return r
 
     def partition(self, sep: Any) -> Any:
+        r = self._hook('partition', sep)
+        if r is not NotImplemented:
+            return r
         i = z3.IndexOf(self.t, _s(sep), 0)
         n = z3.Length(self.t)
         sl = z3.Length(_s(sep))
@@ -469,7 +487,15 @@ class SStr(Sym):
         return h(cur(), self, sep, maxsplit)
 
     def replace(self, old: Any, new: Any) -> Any:
-        return mk_str(z3.ReplaceAll(self.t, _s(old), _s(new)), self.kind) if hasattr(z3, 'ReplaceAll') else _unreached('replace')
+        r = self._hook('replace', old, new)
+        if r is not NotImplemented:
+            return r
+        if hasattr(z3, 'ReplaceAll'):
+            return mk_str(z3.ReplaceAll(self.t, _s(old), _s(new)), self.kind)
+        if hasattr(z3, 'Z3_mk_seq_replace_all'):  # z3py without the wrapper: build str.replace_all through the C API
+            o, n = _s(old), _s(new)
+            return mk_str(z3.SeqRef(z3.Z3_mk_seq_replace_all(self.t.ctx_ref(), self.t.as_ast(), o.as_ast(), n.as_ast()), self.t.ctx), self.kind)
+        return _unreached('replace')
 
     def encode(self, enc: str = 'utf-8', errors: str = 'strict') -> Any:
         return cur().codec('encode', self, enc, errors)
